@@ -17,6 +17,9 @@ IsSub(c, d) == c = d \/ d = "K"                         \* every class derives f
 EqKey(o) == CASE o \in {"e1", "e2"} -> "E:1" [] o = "e3" -> "E:2" [] o \in {"u1", "u2"} -> "U:1" [] OTHER -> o   \* plain: identity
 Hashable(o) == ClassOf(o) # "U"
 Classes == {"K", "Sub", "E", "U"}
+\* the recursive method tree(x) calls itself on the kids of its receiver before binding v
+Kids(o) == CASE o = "k1" -> {"k2"} [] o = "k2" -> {"s1"} [] o = "e1" -> {"e3"} [] OTHER -> {}
+Subtree(o) == {o} \cup Kids(o) \cup UNION {Kids(k) : k \in Kids(o)}
 \* ------------- A level
 AAccepts(target) == TRUE
 \* every class of the population inherits K's method: selecting it through any of them names the same function
